@@ -263,7 +263,7 @@ func (r *runner) dataQueryInstances() []qinst {
 			return resItems(res.Resolvers), res.Pagination, nil
 		})
 	}
-	for _, u := range []string{"https://r1", "https://r2", "https://zz"} {
+	for _, u := range []string{"https://r1", "https://r2", "https://zz", "urn:regen:r1"} {
 		u := u
 		add("ResolversByURL", u, func(c context.Context, pr *query.PageRequest) ([]string, *query.PageResponse, error) {
 			res, err := dq.ResolversByURL(c, &data.QueryResolversByURLRequest{Url: u, Pagination: pr})
